@@ -8,6 +8,20 @@ CHECKS = {
    note="Trusted: Coq kernel, the ast translator, extraction (cross-checked fast vs ref), CPython int/Fraction semantics. fractions.Fraction itself is trusted for Rational.",
    technique="Coq proof over kernels regenerated from source + differential correspondence", ref="DESIGN.md §6 C12"),
 }
+CHECKS.update({
+ 'C13': dict(
+   text="Coq theorems on the Guarded kernels regenerated from values/guarded.py: exactly one of <,==,> for every pair; == iff the stored values differ by less than half a unit of the declared precision, else ordered as stored; with guard=0 every kernel equals the Fixed kernel of the same precision, the Guarded instance the count model runs on IS the Fixed instance (record equality by functional extensionality) and therefore every count of the model has the identical trace; with guard>0 every multiplicative kernel is the floor at p+g places (the proved part of 'quasi-exact = exact'; the whole-count claim is searched by running guarded vs rational). Tie: translator + differential runs (operations and whole counts).",
+   note="Trusted: Coq kernel, translator, extraction, stdlib axiom functional_extensionality_dep (C13_guard0_instance/_every_count only), the hand-written count model (tied to the code by full-trace correspondence). Clause (c) is partial: not a theorem of the code as worded (DESIGN C13).",
+   technique="Coq proof over regenerated kernels + record equality transporting whole counts + differential correspondence", ref="DESIGN.md §6 C13"),
+ 'C14': dict(
+   text="Coq theorems on the __str__ kernels regenerated from fixed.py/guarded.py (and the hand model of Rational.__str__): for every value, precision, guard and display the integers handed to the '%d.%0Nd' format denote exactly floor(x*10^d + 1/2) (half-up), every field fits its zero-padded width, and a '-' is produced only for a value below zero. The % formatting step is modelled by render_fmt and tied to Python by differential runs on printed strings plus an oracle that parses the printed text back.",
+   note="Trusted: Coq kernel, translator, Python's % operator (modelled, not verified). String level is false for Guarded precision=0 display>0 (open finding K6, refuted Example in Props/C14.v).",
+   technique="Coq proof over regenerated __str__ kernels + differential correspondence on printed strings", ref="DESIGN.md §6 C14"),
+ 'C20': dict(
+   text="The only process-global state a count reads is the class-level state of the arithmetic classes. In the model it is the argument of the arithmetic instance; the one component that can be stale (Guarded __scaledg) is proved irrelevant: the Guarded instance and the trace of every count are equal for all stale values (Coq, via functional extensionality). Tie: histories of earlier elections run in one process vs fresh-process results (report, dump, JSON byte-equal).",
+   note="Trusted: Coq kernel, stdlib axiom functional_extensionality_dep, the hand model of initialize() (which fields are assigned on which branch), tied by the history driver; interpreter-level state outside the three classes is not modelled.",
+   technique="Coq proof (instance equality transporting whole counts) + history differential testing", ref="DESIGN.md §6 C20"),
+})
 NOT_YET = {}
 def main():
     props = [json.loads(l) for l in open(os.path.join(V, 'properties.jsonl'))]
